@@ -326,6 +326,22 @@ func All() []Program {
 			"page.vuego":         "---\nlayout: tail\n---\n" + `<p>{{ who }}</p>`,
 			"layouts/tail.vuego": `<div v-html="content"></div>` + end + `(c) {{ who }} ACME`,
 		}, Data: map[string]vals.V{"who": s("tailWHO")}, Feat: []string{"layout", "front-matter", "text-tail"}},
+		// page files that start with a UTF-8 byte-order mark (some editors write one)
+		{Name: "bom-plain", Files: map[string]string{
+			"page.vuego": "\xef\xbb\xbf" + `<div><p>{{ who }}</p><template include="c.vuego" :v="who"></template></div>` + end,
+			"c.vuego":    "\xef\xbb\xbf" + `<b>{{ v }}</b>`,
+		}, Data: map[string]vals.V{"who": s("bomWHO")}, Feat: []string{"bom", "include"}},
+		{Name: "bom-layout", FileOnly: true, Files: map[string]string{
+			"page.vuego":         "\xef\xbb\xbf---\ntitle: BomTitle\n---\n" + `<p>{{ who }}</p>`,
+			"layouts/base.vuego": "\xef\xbb\xbf" + `<html><head><title>{{ title }}</title></head><body><div v-html="content"></div>` + end + `</body></html>`,
+		}, Data: map[string]vals.V{"who": s("bomLWHO")}, Feat: []string{"bom", "layout", "front-matter"}},
+		{Name: "fail-bom-missing-include", Fails: true, Files: map[string]string{
+			"page.vuego": "\xef\xbb\xbf" + `<p>before</p><template include="nope.vuego"></template><p>after</p>`,
+		}, Feat: []string{"fail", "bom", "include"}},
+		{Name: "fail-bom-in-layout", Fails: true, FileOnly: true, Files: map[string]string{
+			"page.vuego":         "\xef\xbb\xbf" + `<p>{{ who | boom }}</p>`,
+			"layouts/base.vuego": `<html><body><div v-html="content"></div></body></html>`,
+		}, Data: map[string]vals.V{"who": s("fbWHO")}, Feat: []string{"fail", "bom", "layout"}},
 		// a registered stateful node processor (render-scoped state via New)
 		{Name: "proc-counter", Opts: []string{"counter"}, Files: map[string]string{
 			"page.vuego": `<section><p v-for="r in rows">{{ r }} {{ who }}</p><template include="c.vuego" :v="who"></template></section>` + end,
